@@ -7,6 +7,8 @@ package harness
 import (
 	"fmt"
 	"math/rand/v2"
+	"regexp"
+	"strconv"
 	"strings"
 )
 
@@ -90,6 +92,24 @@ func GenDate(r *rand.Rand, year int) string {
 		return pick(r, []string{"unknown", "(deceased)", "31 Feb 1901", "about", "17 Xyz 1880", ""})
 	}
 	return fmt.Sprintf("%d %s %d", d, m, year)
+}
+
+var exactDateRe = regexp.MustCompile(`^(\d{1,2}) ([A-Za-z]{3}) (\d{3,4})$`)
+
+// shiftOneDay moves a date of the form "12 Mar 1850" by one day inside its
+// month; every other form is returned as it is.
+func shiftOneDay(date string) string {
+	m := exactDateRe.FindStringSubmatch(date)
+	if m == nil {
+		return date
+	}
+	d, _ := strconv.Atoi(m[1])
+	if d < 28 {
+		d++
+	} else {
+		d--
+	}
+	return fmt.Sprintf("%d %s %s", d, m[2], m[3])
 }
 
 func hex32(r *rand.Rand) string {
@@ -517,6 +537,14 @@ func Derive(r *rand.Rand, g *Graph, o GraphOpts) *Graph {
 			t.UIDs, t.FSIDs = nil, nil
 			t.Names = append([]string(nil), t.Names...)
 			t.Events = append([]Event(nil), t.Events...)
+			if r.IntN(2) == 0 {
+				// a near twin: every exact date is one day off, so the scores
+				// of the two candidates differ in the seventh decimal or so:
+				// close, and not a tie
+				for k := range t.Events {
+					t.Events[k].Date = shiftOneDay(t.Events[k].Date)
+				}
+			}
 			c.People = append(c.People, &t)
 		} else {
 			ng := GenGraph(r, GraphOpts{People: 1, BaseYear: o.BaseYear, Span: o.Span, PtrPrefix: fmt.Sprintf("N%d_", i)})
